@@ -96,6 +96,8 @@ WINDOW_DEVS = {
     "start_feb29": lambda s: {**s, "start": "2004/02/29", "end": "2005/02/20", "crop": {**s["crop"], "planting": "03/05"}},
     "end_feb29": lambda s: {**s, "start": "2003/05/01", "end": "2004/02/29"},
     "season_across_feb29": lambda s: {**s, "start": "2003/12/15", "end": "2004/12/01", "crop": {**s["crop"], "planting": "12/15"}},
+    "end_on_planting_day": lambda s: {**s, "end": "2003/" + s["crop"]["planting"]},
+    "end_day_after_planting_day": lambda s: {**s, "end": A._f(A._d("2003/" + s["crop"]["planting"]) + __import__("datetime").timedelta(days=1))},
     "partial_season": lambda s: {**s, "end": "2001/06/20"},
     "start_after_planting": lambda s: {**s, "start": "2001/05/10", "end": "2003/04/20"},
     "start_before_planting": lambda s: {**s, "start": "2001/03/15"},
@@ -236,8 +238,8 @@ def describe(tier):
                  "the FULL catalogue product 37 crops x 15 soils x 6 strategies (3330 full-season runs)")
                 + " on the warm word, plus, around 6 bases, every single deviation " + ("and every 23rd pair" if tier == "quick" else "and EVERY pair") + " over 47 option switches (ETadj, PlantMethod, CropType 1-3, "
                 "GDDmethod 1-3, Determinant, SwitchGDD, stress switches, bunds with z_bund 0 / 0.5 mm / 0.2 m, fallow bunds, mulches, sr_inhb, CN adjustment, water-table methods incl. "
-                "uncovered series and a table at the surface, all IWC types, CO2 options, off-season, calc_cn, adj_rew, adj_cn, odd z_cn/z_germ, thick, short and non-uniform thickness lists) and 10 "
-                "window deviations (leap-day start/end, season across 29 Feb, partial season, no season, start before/after planting, 3 seasons, planting on 12/31 and 01/01). Oracle: terminates "
+                "uncovered series and a table at the surface, all IWC types, CO2 options, off-season, calc_cn, adj_rew, adj_cn, odd z_cn/z_germ, thick, short and non-uniform thickness lists) and 12 "
+                "window deviations (leap-day start/end, season across 29 Feb, partial season, no season, start before/after planting, 3 seasons, an end date on / one day after a planting day, planting on 12/31 and 01/01). Oracle: terminates "
                 "(watchdog), raises only documented rejections (matched on type AND origin), every cell of every table finite (z_gw exempt without a table).",
         "bound": "catalogue " + ("pairwise" if tier == "quick" else "complete") + "; deviations d<=" + ("1 (+1/23 of pairs)" if tier == "quick" else "2"),
         "exhaustive": True,
